@@ -383,6 +383,14 @@ def _init_worker():
     import logging
     logging.disable(logging.WARNING)
     try:
+        # a changed rtamt can turn a 2-sample window into a 2-million-sample one: let the obligation fail with MemoryError (reported
+        # as inconclusive / as the exception it is) instead of taking the machine down
+        import resource
+        lim = int(os.environ.get('VERIF_WORKER_MEM_GB', '6')) << 30
+        resource.setrlimit(resource.RLIMIT_AS, (lim, lim))
+    except Exception:
+        pass
+    try:
         sys.stdout = open(os.devnull, 'w')     # rtamt prints warnings
     except Exception:
         pass
@@ -416,13 +424,42 @@ def run_property(prop, tier, seed, jobs=None, only=None, verbose=False):
         for i in range(len(obs)):
             results.append(_work(i))
     else:
+        import concurrent.futures as cf
         ctx = multiprocessing.get_context('fork')
         order = sorted(range(len(obs)), key=lambda i: -obs[i].get('cost', 1))
-        with ctx.Pool(jobs, initializer=_init_worker) as pool:
-            for r in pool.imap_unordered(_work, order, chunksize=1):
-                results.append(r)
-                if verbose:
-                    sys.stderr.write('%-12s %6.1fs %5d paths  %s\n' % (r['verdict'], r['wall_s'], r['paths'], r['oid']))
+        done = set()
+        # ProcessPoolExecutor, not multiprocessing.Pool: when a worker process dies (killed, out of memory) the pool reports it instead
+        # of waiting for ever; the obligations it had not answered are inconclusive and the pool is rebuilt for the rest
+        pending = list(order)
+        while pending:
+            died = False
+            with cf.ProcessPoolExecutor(max_workers=jobs, mp_context=ctx, initializer=_init_worker) as pool:
+                futs = {pool.submit(_work, i): i for i in pending}
+                try:
+                    for fu in cf.as_completed(futs):
+                        r = fu.result()
+                        done.add(futs[fu])
+                        results.append(r)
+                        if verbose:
+                            sys.stderr.write('%-12s %6.1fs %5d paths  %s\n' % (r['verdict'], r['wall_s'], r['paths'], r['oid']))
+                except cf.process.BrokenProcessPool:
+                    died = True
+            pending = [i for i in pending if i not in done]
+            if died and pending:
+                # the obligation that killed its worker cannot be told from the ones that were queued behind it: run the rest one by one,
+                # each in a pool of its own
+                for i in pending:
+                    try:
+                        with cf.ProcessPoolExecutor(max_workers=1, mp_context=ctx, initializer=_init_worker) as one:
+                            r = one.submit(_work, i).result()
+                    except cf.process.BrokenProcessPool:
+                        o = obs[i]
+                        r = {'oid': o['oid'], 'prop': o['prop'], 'harness': o['harness'], 'params': o['params'], 'verdict': 'inconclusive',
+                             'why': 'the worker process died (killed or out of memory)', 'fail': [], 'paths': 0, 'decisions': 0, 'queries': 0,
+                             'solver_s': 0.0, 'aborted': {}, 'validated': 0, 'asserts': 0, 'ok_paths': 0, 'raised_paths': 0, 'unconfirmed': [],
+                             'second_solver': {}, 'wall_s': 0.0, 'twin': o.get('twin'), 'forkmode': bool(o.get('forkmode'))}
+                    results.append(r)
+                pending = []
     results.sort(key=lambda r: ids.index(r['oid']))
     return finish(prop, tier, seed, mod, results, time.time() - t0)
 
